@@ -187,6 +187,8 @@ func (c *ctx) runLines(path string) {
 	defer f.Close()
 	sc := bufio.NewScanner(f)
 	sc.Buffer(make([]byte, 1<<20), 1<<28)
+	var ks []*kept // decoded (and failed) destinations: checked for stability at the end, as in the streams
+	defer func() { c.h.checkKept(ks) }()
 	for sc.Scan() {
 		ln := sc.Text()
 		if k := strings.Index(ln, " -> "); k >= 0 {
@@ -212,7 +214,9 @@ func (c *ctx) runLines(path string) {
 			if tok[2] != "-" {
 				in, _ = hex.DecodeString(tok[2])
 			}
-			c.h.opDec(u, in, parseInto(u, tok[3]), true)
+			if _, _, k := c.h.opDec(u, in, parseInto(u, tok[3]), true); k != nil {
+				ks = append(ks, k)
+			}
 		case "use":
 			c.h.opUse(universe.BySid(sid))
 		case "rt":
